@@ -16,6 +16,22 @@ CHECKS = {
             'names, every shorter query form and every list order, the real resolution function returns what the '
             'component-wise reference returns; each explored path ends in an unsat verdict. Bounded by the number of '
             'names and the nesting depth (2).', '7/C10'),
+    'C12': ('bounded symbolic execution of chain construction; key terms over an uninterpreted injective hash compared by cvc5/z3 with a frozen re-implementation of the 1.4.0 scheme',
+            'For every value of every persisted parameter (strings and integers unbounded, containers to depth 2/3, '
+            'parameter objects, placeholder values) of six family pipelines at namespace depth 0-2, the key the real '
+            'code derives equals the key of the frozen 1.4.0 scheme and the data / run-info / log paths have the '
+            'documented layout (unsat per path); name mode and a boundary pool of concrete values (floats, unicode, '
+            'quotes, backslashes) through the real hashlib are enumerated by symbolic choice.', '7/C12'),
+    'C03': ('bounded symbolic execution of chain construction for two configurations; query "values differ AND keys equal" decided by cvc5/z3',
+            'For all pairs of value trees of depth <= 2 and width <= 2 (thorough: depth 3) with symbolic leaves and '
+            'mapping keys, for parameter-object arguments, multi-parameter registries, upstream distance 1-2 and '
+            'differently wired inputs: no two Python-unequal values give the same storage key (unsat per path), '
+            'outside the recorded quote-collision finding, which is assumed away and queried separately.', '7/C03'),
+    'C02': ('bounded symbolic execution of chain construction for an original and a rewritten configuration over the same symbolic values; query "keys differ" decided by cvc5/z3',
+            'For sixteen computation-preserving rewritings (rename, namespace mounting depth 1-2, declaration / task / '
+            'mapping-key / kwargs / uses order, ignored and default-valued parameters, config->context moves, '
+            'global_vars values, absent optional input, set iteration order) the storage key of every task is the '
+            'same for every parameter value (unsat per path); two recorded findings are confirmed by replay.', '7/C02'),
 }
 NOT_YET = 'check not built yet in this round (planned, see DESIGN.md section 7); not claimed until it runs'
 ALL = [f'C{i:02d}' for i in range(1, 21)]
